@@ -237,7 +237,7 @@ TASKS = {"f16_neighbours": task_f16_neighbours, "pairs": task_pairs}
 
 def plan(tier, seed):
     t = [("f16_neighbours", dict(shard=s, nshards=8)) for s in range(8)]
-    n, nsh = (3000, 2) if tier == "quick" else (600000, 5)
+    n, nsh = (20000, 4) if tier == "quick" else (600000, 5)
     for dtn in ("float16", "float32", "float64"):
         for s in range(nsh):
             t.append(("pairs", dict(dtype=dtn, shard=s, n=n, seed=seed)))
